@@ -51,6 +51,15 @@ CHECKS["C17"] = dict(
     ref="DESIGN.md 4/C17",
     note=NOTE_COMMON + "Arc._svg_parameterize replaced by a recorder. Outside: longer sequences; Path.append/extend with strings.")
 
+CHECKS["C09"] = dict(
+    text="Path().parse on symbolic strings through the module's own token regexes: ALL strings of length <= 4 (thorough 5) over the whole Unicode range, and for "
+         "each of the 20 commands a valid template (with and without leading move) with a fully symbolic character replacing or inserted before every position "
+         "and after every truncation; on every path the outcome is proved to be return or ValueError, the retained segments are checked to have numeric "
+         "coordinates, and d/d(relative)/bbox/transform+reify/length are executed on a witness of the path (concolic).",
+    ref="DESIGN.md 4/C09",
+    note=NOTE_COMMON + "Two known findings (fragments whose first command is not a moveto), see known_findings.json. Outside: longer strings outside the template "
+         "families, wall-clock promptness, IEEE underflow of arc radii; post-parse operations are checked on one witness per path, not for all values.")
+
 NOT_APPLICABLE = {
 }
 
